@@ -1,7 +1,9 @@
 // Package c04: sortition selects exactly the binomial quantile and its proofs
 // bind all inputs.  Exhaustive enumeration of (a) every quantile cell boundary
 // of a (stake, probability) grid, probed from both sides, against an exact
-// math/big binomial CDF, and (b) every single-field perturbation of honest
+// math/big binomial CDF (upper tail: every tail cell boundary down to 2^-250
+// against the exact tails with a relative tolerance, tail.go), and (b) every
+// single-field perturbation of honest
 // credentials over a fixed key x message x parameter grid.
 package c04
 
@@ -56,8 +58,10 @@ func Run(r *mc.Run) {
 	} else {
 		r.SetBudget(30 * 60e9)
 	}
-	r.Rule = "quantile: for every (stake, probability) pair of the grid, every quantile cell boundary F(j) of the exact binomial CDF (all j for stake <= 64, else all j with 1e-12 <= F(j) <= 1-1e-12) is turned into hashes floor((F(j) +- d)*2^256), d in {0, 1 ulp, 1e-9, 1e-6, and 4x the float tolerance where that exceeds 1e-10}, plus the hash extremes and the 0.99 branch switch; choose() must return a seat count admissible for the exact CDF, inside [0,stake], monotone in the hash; distinct = (stake, p, exact seat count, code branch).  binding: for every key x message x parameter triple an honest credential from VrfSortition, then every single-field perturbation (other key, each seed bit, index, step, each proof byte +-1, proof length, claimed seats, threshold/stake/total +-1, each priority byte +-1, every other seat count with its own priority) through VrfVerifySortition and VrfVerifyPriority; distinct = rejected perturbation cases.  message level: the same message-carried perturbations through Server.verifyPriority / Server.verifySortition (the functions production hands to the proposal and vote handlers) on a Server over a stub chain reader (one look-back header with the seed, one committed validator set of 8 chamber validators)"
+	r.Rule = "quantile: for every (stake, probability) pair of the grid, every quantile cell boundary F(j) of the exact binomial CDF (all j for stake <= 64, else all j with 1e-12 <= F(j) <= 1-1e-12) is turned into hashes floor((F(j) +- d)*2^256), d in {0, 1 ulp, 1e-9, 1e-6, and 4x the float tolerance where that exceeds 1e-10}, plus the hash extremes and the 0.99 branch switch; choose() must return a seat count admissible for the exact CDF, inside [0,stake], monotone in the hash; distinct = (stake, p, exact seat count, code branch).  upper tail (regime target > 0.99, every pair with p <= 1 and n*p*(1-p) <= 2.5e5): hashes 2^256-1-k for k in {0,1,2,3,2^8,2^32,2^64,2^128,2^192,2^200,2^202,2^203,2^210,2^220} and EVERY tail cell boundary: for every j with exact tail Pr(X>j) in [2^-250, 0.01] the hashes 2^256-1-floor(tail(j)*(1+-o)*2^256), o in {0, 1e-12, 1e-9, 1e-6} (relative offsets of the TAIL value, both sides) and the two hash neighbours of the boundary; there the seat count is judged in tail space against the exact 1024-bit tails with a RELATIVE tolerance: tail(j) <= inv*(1+delta) and tail(j-1) >= inv*(1-delta), inv = 1-hash/2^256 exact, delta = max(5e-10, 16*n*ln(n+1)*2^-53) (>= 4x the relative error of the float64 CDF of binomial(n,1-p) measured over all probed cells, recorded under upper_tail_float64_cdf_max_relative_error*).  binding: for every key x message x parameter triple an honest credential from VrfSortition, then every single-field perturbation (other key, each seed bit, index, step, each proof byte +-1, proof length, claimed seats, threshold/stake/total +-1, each priority byte +-1, every other seat count with its own priority) through VrfVerifySortition and VrfVerifyPriority; distinct = rejected perturbation cases.  message level: the same message-carried perturbations through Server.verifyPriority / Server.verifySortition (the functions production hands to the proposal and vote handlers) on a Server over a stub chain reader (one look-back header with the seed, one committed validator set of 8 chamber validators)"
 	r.Assume("float64 by design: a seat count is admissible when it is the exact quantile of some t' with |t'-t| <= max(1e-12, 4*n*ln(n)*2^-53) (conditioning of the log-gamma based float64 CDF; 1e-12 up to stake ~400)")
+	r.Assume("upper tail (target > 0.99): the VRF output as a fraction is read both ways, output/2^256 (statement) and output/(2^256-1) (code: the all-ones output is exactly 1 and selects the whole stake); a seat count is admissible when it is the exact quantile, within the relative tail tolerance, under either reading; the readings differ by less than one unit of the 256-bit grid and give different seat counts only for the last few hashes below 2^256-1 (counted)")
+	r.Assume("the exact-tail oracle is restricted to n*p*(1-p) <= 2.5e5: beyond that the float64 CDF has no relative accuracy (known finding), only the absolute oracle applies there")
 	r.Assume("the priority is defined over the sub-user indices 0..j (j+1 hashes), as the implementation and every node compute it")
 	runQuantile(r)
 	runBinding(r)
